@@ -16,10 +16,16 @@ TReplace == /\ l <= Len(Rec) /\ Ev.e = "replace" /\ "error" \notin DOMAIN Ev
                  /\ (Ev.res = Ev.ideal \/ (Ev.feats # <<>> /\ Ev.res = asis))
                  /\ (Ev.feats = <<>> => asis = Ev.ideal)
             /\ l' = l + 1
-Next == TReplace
+\* {"e":"tall","ref","want","got"}: a group spanning more than 16 384 rows (or reaching the last
+\* columns) of which only a few member cells are present: each present member reports the master
+\* translated by its own offset (want is computed by the driver from the member's position)
+TTall == /\ l <= Len(Rec) /\ Ev.e = "tall" /\ "error" \notin DOMAIN Ev
+         /\ Ev.got = Ev.want
+         /\ l' = l + 1
+Next == TReplace \/ TTall
 Spec == Init /\ [][Next]_l
 Accepted ==
   LET d == TLCGet("stats").diameter IN
   IF d - 1 = Len(Rec) THEN PrintT(<<"ACCEPTED", ToString(Len(Rec))>>)
-  ELSE PrintT(<<"REJECTED", ToJson([at |-> d, run |-> Rec[d].run])>>)
+  ELSE PrintT(<<"REJECTED", ToJson([at |-> d, event |-> Rec[d]])>>)
 =============================================================================
